@@ -149,6 +149,12 @@ var c10Queries2 = []string{
 	"SELECT a FROM `t[keep=>7]`",
 	"SELECT a, `arr[(4:end)]` AS v FROM t",
 	"SELECT a FROM t WHERE `arr[3]` > 1",
+	// functions that need an option the caller did not pass, in goroutine-running positions
+	"SELECT SETVAR('k', a) FROM t",
+	"SELECT GETVAR('k') AS v, CONSTANT('k') AS c FROM t",
+	"SELECT * FROM t x PARALLEL JOIN u y ON x.a >= y.a AND SETVAR('k', 1) IS NULL",
+	"SELECT * FROM t x PARALLEL LEFT JOIN u y ON x.a >= y.a AND GETVAR('k') IS NULL",
+	"SELECT a, ASYNC.vfail(SETVAR('k', a)) FROM t",
 	// sources that are not arrays of objects
 	"SELECT * FROM a",
 	"SELECT * FROM `a.b`",
@@ -348,6 +354,37 @@ func H_C10_mutants() {
 	RegisterFunction("vpanic", panickingFunc)
 	verif.Opt("recursion-is-violation", 1)
 	newExec(doc, mut)
+	verif.Drain()
+	verif.Reach("end")
+}
+
+// H_C10_reexec: a query object executed twice (and a second query on the
+// same options after a failed one) returns both times: a failure leaves no
+// lock held and no goroutine waiting.
+func H_C10_reexec() {
+	qi := verif.Choose("query", len(c10Queries2))
+	withVars := verif.Choose("with-vars", 2)
+	a := float64(1)
+	doc := Map{
+		"t": []any{Map{"a": a, "s": "a%", "o": Map{"k": a}, "arr": []any{a}}, Map{"a": float64(2), "s": "x", "o": nil, "arr": []any{}}},
+		"u": []any{Map{"a": float64(2)}, Map{"a": Map{"b": a}}},
+		"a": Map{"b": a},
+	}
+	RegisterFunction("vfail", failingFunc)
+	verif.Opt("schedules", 1)
+	verif.Opt("preempt", 0)
+	var opts []QueryOption
+	if withVars == 1 {
+		opts = append(opts, WithVars(map[string]any{}))
+	}
+	q, err := New(doc, c10Queries2[qi], opts...)
+	if err == nil {
+		q.Exec()
+		verif.Drain()
+		q.Exec()
+		verif.Drain()
+		q.Exec()
+	}
 	verif.Drain()
 	verif.Reach("end")
 }
